@@ -37,6 +37,9 @@ func (b *Batcher) Accept(ctx context.Context, logs ...LogWithLedger) ([]error, e
 	}
 
 	for ind, operation := range operations {
+		if operation == nil { // Send failed, the error is already recorded
+			continue
+		}
 		if _, err := operation.Wait(ctx); err != nil {
 			itemsErrors[ind] = fmt.Errorf("failure while waiting for operation completion: %w", err)
 			continue
